@@ -49,7 +49,7 @@ func cmdBt(args []string) {
 	fs.Parse(args)
 
 	prof, ok := bt.Profiles[*scenario]
-	if !ok {
+	if _, isX := bt.Exhaustive[*scenario]; !ok && !isX {
 		fmt.Fprintln(os.Stderr, "unknown scenario", *scenario)
 		os.Exit(2)
 	}
@@ -76,11 +76,18 @@ func cmdBt(args []string) {
 			progs = append(progs, p)
 		}
 	}
+	exhaustive := false
+	if gen, ok := bt.Exhaustive[*scenario]; ok && *replay == "" {
+		progs = append(progs, gen(*seed, *n)...)
+		exhaustive = *n <= 0
+		*n = 0
+	}
 	for i := 0; i < *n; i++ {
 		g := &bt.Gen{R: root.Fork(), P: prof}
 		progs = append(progs, g.Program())
 	}
 	rep := core.RunPrograms("bt/"+*scenario, *seed, progs, bt.Engines(*engines), bt.Accept)
+	rep.Exhaustive = exhaustive
 	if err := rep.Write(*out); err != nil {
 		fmt.Fprintln(os.Stderr, err)
 		os.Exit(2)
